@@ -374,7 +374,7 @@ main(int argc, char **argv)
 			continue;
 		}
 		/* data-phase start states, built by scripted prefixes */
-		for (phase = 0; phase < 19; phase ++) {
+		for (phase = 0; phase < 20; phase ++) {
 			world_snap base;
 			world_take(&base);
 			switch (phase) {
@@ -423,12 +423,30 @@ main(int argc, char **argv)
 				tp_act_recvrec(v, f, 100000); tp_act_recvrec(v, f, 100000); tp_act_recvrec(v, f, 100000);
 				break;
 			}
+			/* the client application resets its context for a new connection with a server name that does not fit
+			   (256 bytes or more: the call returns 0): what it holds then is a failed engine, not the old connection
+			   and not a half-opened new one */
+			case 19: {
+				char nm[300];
+				int rr;
+				memset(nm, 'a', sizeof nm - 1); nm[sizeof nm - 1] = 0;
+				nm[3] = '.';
+				tp_act_write(&W.c, 10);
+				W.c.closed_seen = 0;               /* a reset call is where "closed" may legitimately end */
+				rr = br_ssl_client_reset(W.c.cc, nm, (int)(conf & 1));
+				tp_calls ++; tp_check(&W.c, "client_reset(name of 299 bytes)");
+				vf_stat("failed_reset_start_states", 1);
+				if (rr != 0) TP_VIOL("c06:reset-accepted-oversized-name", "br_ssl_client_reset returned 1 for a server name that does not fit the context");
+				else if (!tp_ep_closed(&W.c) || br_ssl_engine_last_error(W.c.eng) == 0)
+					TP_VIOL("c06:failed-reset-leaves-engine-open", "br_ssl_client_reset returned 0 but the engine is not closed with an error code");
+				break;
+			}
 			case 9: tp_act_reneg(&W.s); tp_act_sendrec(&W.s, &W.s2c, 100000);
 				tp_act_recvrec(&W.c, &W.s2c, 100000); tp_act_recvrec(&W.c, &W.s2c, 100000); break;   /* HelloRequest received */
 			}
 			if ((startno ++ % nworkers) == worker) {
 				start_has_reneg = phase == 8 || phase == 9 || phase == 16;
-				start_failed = phase == 17 || phase == 18;
+				start_failed = phase == 17 || phase == 18 || phase == 19;
 				explore_from_here(phase >= 10 ? depth + 1 : depth, "data-phase", phase);
 				start_has_reneg = 0;
 				start_failed = 0;
